@@ -471,7 +471,7 @@ func genSrvCase(t *rapid.T) SrvCase {
 		l := fmt.Sprintf("dev%d-", d)
 		menu := []string{"sh-vers", "sh-suite", "sh-random", "sh-sid", "sh-comp", "sh-ext", "sh-ext", "sh-ext", "sh-raw", "rec-ver", "tail", "tail", "flight"}
 		if !tls13 {
-			menu = append(menu, "cert", "cert", "cert", "cert", "status", "skx-params", "skx-params", "skx-params", "skx-params", "skx-sig", "skx-sig", "skx-family", "skx-toggle",
+			menu = append(menu, "cert", "cert", "cert", "cert", "status", "skx-params", "skx-params", "skx-params", "skx-params", "skx-sig", "skx-sig", "skx-cut", "skx-cut", "skx-family", "skx-toggle",
 				"certreq", "certreq", "done", "flight", "flight")
 		}
 		switch pick(t, l+"what", menu) {
@@ -532,8 +532,13 @@ func genSrvCase(t *rapid.T) SrvCase {
 				if rapid.Bool().Draw(t, l+"alg") {
 					f0[i].C = pick(t, l+"scheme", sigSchemes)
 				} else {
-					f0[i].D = 1 + uni(t, l+"mode", 5)
+					f0[i].D = 1 + uni(t, l+"mode", 8)
 				}
+			}
+		case "skx-cut":
+			// the message ends inside or right after the (expected, acceptable) algorithm identifier
+			if i := find("skx"); i >= 0 {
+				f0[i].D = 6 + uni(t, l+"cut", 3)
 			}
 		case "skx-family":
 			if i := find("skx"); i >= 0 {
@@ -625,7 +630,7 @@ func genSrvCase(t *rapid.T) SrvCase {
 	return c
 }
 
-const srvRule = "a hand-written scripted server answers a real zcrypto client (configurations as in 'faults', offering all implemented suites, optional client certificate, permissive parsing, DSA-enabled signature lists, optionally a primed session cache) with a generated ServerHello (version/suite/session-id/compression/extension variants incl. TLS 1.3 supported_versions, key_share, HelloRetryRequest, cookies, downgrade canaries), Certificate (genuine, empty, garbage or carrying a hostile key), CertificateStatus, ServerKeyExchange (ECDHE: valid/zero/short/empty/off-curve/compressed/infinity/over-long points on known and unknown groups; DHE: p in {RFC 5114, 0, 1, 2, 4, 23, even, 8192-bit, 65537}, g in {2, 0, 1, p-1, >p}, Ys in {valid, 0, 1, p-1, p, >p}; signature genuinely valid for the presented key, garbage, empty, absent or with a lying length, under expected and unexpected schemes), CertificateRequest, ServerHelloDone, then NewSessionTicket/ChangeCipherSpec/Finished garbage and arbitrary records, with duplicated/omitted/reordered/inserted messages, coalesced or fragmented (1-1000 byte records) and segmented at the transport. Non-trivial: the client consumed >= 1 full handshake message (its log contains the ServerHello)"
+const srvRule = "a hand-written scripted server answers a real zcrypto client (configurations as in 'faults', offering all implemented suites, optional client certificate, permissive parsing, DSA-enabled signature lists, optionally a primed session cache) with a generated ServerHello (version/suite/session-id/compression/extension variants incl. TLS 1.3 supported_versions, key_share, HelloRetryRequest, cookies, downgrade canaries), Certificate (genuine, empty, garbage or carrying a hostile key), CertificateStatus, ServerKeyExchange (ECDHE: valid/zero/short/empty/off-curve/compressed/infinity/over-long points on known and unknown groups; DHE: p in {RFC 5114, 0, 1, 2, 4, 23, even, 8192-bit, 65537}, g in {2, 0, 1, p-1, >p}, Ys in {valid, 0, 1, p-1, p, >p}; signature genuinely valid for the presented key, garbage, empty, absent, with a lying length, or cut off inside or right after the algorithm identifier or inside the length field, under expected and unexpected schemes), CertificateRequest, ServerHelloDone, then NewSessionTicket/ChangeCipherSpec/Finished garbage and arbitrary records, with duplicated/omitted/reordered/inserted messages, coalesced or fragmented (1-1000 byte records) and segmented at the transport. Non-trivial: the client consumed >= 1 full handshake message (its log contains the ServerHello)"
 
 func TestPropScriptedServer(t *testing.T) {
 	_ = keys.All
